@@ -436,3 +436,42 @@ enum QueryPeerState {
     /// This is a final state, reached as a result of a call to `on_success`.
     Succeeded,
 }
+
+#[cfg(feature = "verif-hooks")]
+impl<TNodeId, TResult> PredicateQuery<TNodeId, TResult>
+where
+    TNodeId: Clone,
+{
+    /// Verification hook: a copy of the query's state (fields only, nothing is computed).
+    pub fn verif_dump(&self) -> crate::verif::query::QueryDump<TNodeId> {
+        use crate::verif::query::{PeerDump, PeerStateDump, ProgressDump, QueryDump};
+        QueryDump {
+            predicate: true,
+            progress: match self.progress {
+                QueryProgress::Iterating { no_progress } => ProgressDump::Iterating(no_progress),
+                QueryProgress::Stalled => ProgressDump::Stalled,
+                QueryProgress::Finished => ProgressDump::Finished,
+            },
+            num_waiting: self.num_waiting,
+            parallelism: self.config.parallelism,
+            num_results: self.config.num_results,
+            peer_timeout: self.config.peer_timeout,
+            peers: self
+                .closest_peers
+                .values()
+                .map(|peer| PeerDump {
+                    id: peer.key.preimage().clone(),
+                    state: match peer.state {
+                        QueryPeerState::NotContacted => PeerStateDump::NotContacted,
+                        QueryPeerState::Waiting(timeout) => PeerStateDump::Waiting(timeout),
+                        QueryPeerState::Unresponsive => PeerStateDump::Unresponsive,
+                        QueryPeerState::Failed => PeerStateDump::Failed,
+                        QueryPeerState::Succeeded => PeerStateDump::Succeeded,
+                    },
+                    peers_returned: peer.peers_returned,
+                    predicate_match: peer.predicate_match,
+                })
+                .collect(),
+        }
+    }
+}
